@@ -62,6 +62,7 @@ FullSyncZeroCopy<SlotType, OgreAllocatorType, BUFFER_SIZE> {
     fn publish<F: FnOnce(&mut SlotType)>(&self, setter: F) -> (Option<NonZeroU32>, Option<F>) {
         match self.leak_slot() {
             Some( (slot_ref, slot_id) ) => {
+                #[cfg(feature = "verif")] crate::verif::yield_point_w("payload.write");
                 setter(slot_ref);
                 (self.publish_leaked_id(slot_id), None)
             },
@@ -73,6 +74,7 @@ FullSyncZeroCopy<SlotType, OgreAllocatorType, BUFFER_SIZE> {
     fn publish_movable(&self, item: SlotType) -> (Option<NonZeroU32>, Option<SlotType>) {
         match self.leak_slot() {
             Some( (slot_ref, slot_id) ) => {
+                #[cfg(feature = "verif")] crate::verif::yield_point_w("payload.write");
                 unsafe { std::ptr::write(slot_ref, item); }
                 (self.publish_leaked_id(slot_id), None)
             }
@@ -141,6 +143,7 @@ FullSyncZeroCopy<SlotType, OgreAllocatorType, BUFFER_SIZE> {
         match self.consume_leaking() {
             Some( (slot_ref, slot_id) ) => {
                 let len_after_dequeueing = self.queue.available_elements_count() as i32;
+                #[cfg(feature = "verif")] crate::verif::yield_point_r("payload.read");
                 let ret_val = getter_fn(slot_ref);
                 self.release_leaked_id(slot_id);
                 report_len_after_dequeueing_fn(len_after_dequeueing);
